@@ -36,7 +36,8 @@ P = {
                  "C18_accept_static_special_case", "C18_http_eager_hash_refuted", "C18_blob_eager_hash_refuted",
                  "C18_fs_accept_all_histories", "C18_fs_accept_notify", "C18_fs_eager_hash_refuted",
                  "C18_k8s_calls_independent_of_answers", "C18_k8s_accept_no_retry_witness",
-                 "C18_k8s_accept_next_generation_loads"],
+                 "C18_k8s_accept_next_generation_loads",
+                 "C18_k8s_F10_refuted", "C18_fs_F11_refuted"],
     "streams": [{
         "name": "fs", "pkg": "./internal/rules/provider/filesystem", "test": "TestVerifC18Fs",
         "overlay": dict(_COMMON, **{"internal/rules/provider/filesystem/zz_verif_c18_test.go": "c18/fs_test.go"}),
@@ -46,12 +47,12 @@ P = {
         "name": "fsreal", "pkg": "./internal/rules", "test": "TestVerifC18Real",
         "overlay": _REAL,
         "eval_module": "Run.Eval_C18", "check_term": "check_fsr " + _B("F2"),
-        "n_quick": 250, "n_thorough": 8000, "findings": {},
+        "n_quick": 200, "n_thorough": 8000, "findings": {},
     }, {
         "name": "fswatch", "pkg": "./internal/rules/provider/filesystem", "test": "TestVerifC18FsWatch",
         "overlay": dict(_COMMON, **{"internal/rules/provider/filesystem/zz_verif_c18w_test.go": "c18/fswatch_test.go"}),
         "eval_module": "Run.Eval_C18", "check_term": "check_fsw",
-        "n_quick": 100, "n_thorough": 1500, "findings": {},
+        "n_quick": 70, "n_thorough": 1500, "findings": {},
     }, {
         "name": "http", "pkg": "./internal/rules/provider/httpendpoint", "test": "TestVerifC18HTTP",
         "overlay": dict(_COMMON, **{"internal/rules/provider/httpendpoint/zz_verif_c18_test.go": "c18/http_test.go"}),
@@ -78,7 +79,15 @@ P = {
         "name": "k8sreal", "pkg": "./internal/rules", "test": "TestVerifC18K8sReal",
         "overlay": _REAL,
         "eval_module": "Run.Eval_C18", "check_term": "check_k8sr " + _B("F7") + " " + _B("F8"),
-        "n_quick": 200, "n_thorough": 4000, "findings": {},
+        "n_quick": 120, "n_thorough": 4000, "findings": {},
+    }, {
+        "name": "k8scomp", "pkg": "./internal/rules", "test": "TestVerifC18K8sComp", "overlay": _REAL,
+        "eval_module": "Run.Eval_C18", "check_term": "check_k8sc",
+        "n_quick": 90, "n_thorough": 1500, "findings": {10: "C18-F10"},
+    }, {
+        "name": "fscomp", "pkg": "./internal/rules", "test": "TestVerifC18FsComp", "overlay": _REAL,
+        "eval_module": "Run.Eval_C18", "check_term": "check_fsc",
+        "n_quick": 150, "n_thorough": 3000, "findings": {11: "C18-F11"},
     }, {
         "name": "httpreal", "pkg": "./internal/rules", "test": "TestVerifC18HTTPReal", "overlay": _REAL,
         "eval_module": "Run.Eval_C18", "check_term": "check_hreal",
@@ -88,7 +97,7 @@ P = {
         "eval_module": "Run.Eval_C18", "check_term": "check_breal",
         "n_quick": 150, "n_thorough": 4000, "findings": {},
     }],
-    "rule": "ten streams, every one through REAL code of /repo, corpus (witnesses of C18-F1/F2/F4/F5/F6/F7/F8 + corpus/C18/*.json) "
+    "rule": "twelve streams, every one through REAL code of /repo, corpus (witnesses of C18-F1/F2/F4/F5/F6/F7/F8 + corpus/C18/*.json) "
             "first, then generated histories of 1-30 events over 1-3 sources: "
             "fs = file changes (valid/absent/empty/invalid, 5 empty and 11 invalid byte variants) x fsnotify events of every kind "
             "incl. combined op bits, orderly and out-of-order/repeated/stale notifications, initial loads, via "
@@ -109,7 +118,10 @@ P = {
             "reading what the repository holds per object after every event; "
             "httpreal / blobreal = polls of 2-3 endpoints / single-key buckets through watchChanges against the real processor, "
             "factory and repository with contents of four conflict classes sharing a path (a valid set refused while another "
-            "source holds the path, applied at a later poll), reading stored hashes and repository per poll. "
+            "source holds the path, applied at a later poll), reading stored hashes and repository per poll; "
+            "k8scomp / fscomp = the event-driven providers with competing rule sets against the real processor and repository: "
+            "after every event the repository must be quiescent (no valid, applicable rule set of an existing source left "
+            "unloaded) — open findings C18-F10, C18-F11. "
             "12-20% of the contents are rejected by the processor (unsupported version / unknown mechanism); 6-30% of the "
             "fs/http/blob(single key)/k8s cases have a source whose deletion the processor refuses (correspondence only). "
             "Non-trivial = the history produced an accepted update or deletion, or kept a loaded version while seeing an "
